@@ -181,7 +181,11 @@ pub fn run_job(prop: &str, job: &PlogJob, factory: OracleFactory) -> JobResult {
         let want_sample = count % 997 == 1 || (count == 0 && free == 0);
         // replay self-check: every 64th history is executed twice; the sequences of state keys
         // (directory digest + in-memory facts after every step) must be identical
-        let selfcheck = count % 64 == 7;
+        // a restart that does not drain background tasks races by definition (which of the persister's file
+        // operations get in before the runtime is dropped is decided by thread timing): such histories are
+        // checked, but not used to test reproducibility
+        let racy = hist.iter().any(|o| matches!(o, Op::RestartNoDrain));
+        let selfcheck = count % 64 == 7 && !racy;
         let mut d1: Vec<u64> = Vec::new();
         let v = run_history(prop, &scratch, &tpl, &hist, Some(&job.alphabet[0]), oracle.as_mut(), &mut res, want_sample, if selfcheck { Some(&mut d1) } else { None }, job.tcp);
         if selfcheck {
